@@ -2,7 +2,7 @@
 # Confirms one sub-agent change in the scratch worktree /tmp/wt_mut and, if confirmed, keeps it under
 # /verif/seeded/<PROP>-<ID>/ (patch.diff, demo.rs, meta.json). usage: confirm_seed.sh <PROP> <A|B> [srcdir] [ID]
 set -u
-P="$1"; X="$2"; SRC="${3:-/tmp/wt_$P/out}"; ID="${4:-$X}"; WT=/tmp/wt_mut
+P="$1"; X="$2"; SRC="${3:-/tmp/wt_$P/out}"; ID="${4:-$X}"; WT="${WT:-/tmp/wt_mut}"
 export CARGO_TARGET_DIR=$WT/target CARGO_NET_OFFLINE=true
 [ -d "$WT" ] || git -C /repo worktree add -q --detach "$WT" HEAD || exit 2   # remove afterwards: git -C /repo worktree remove --force /tmp/wt_mut
 cd $WT || exit 2
